@@ -65,7 +65,7 @@ def streams(tier, rng):
         if base["n"] == "-" or int(base["n"]) > 14:
             base["n"] = rng.randrange(1, 12)
         aimed.extend(L.aim_budget(rng, base, rng.choice(["max", "max", "min"])))
-    e2e = L.e2e_cases(rng, 200 if not big else 500)
+    e2e = L.e2e_cases(rng, 210 if not big else 500)
     cut = L.tuned_cut_cases(rng, 150 if not big else 3000)
     return [
         L.make_stream("c03-corpus", "c03", L.corpus("C03")),
